@@ -421,6 +421,86 @@ func genTransportSkel(repo string) (string, error) {
 	}
 	fmt.Fprintf(&b, "Definition gen_chan_caps : list (string * N) :=\n  %s.\n\n", coqList(caps))
 
+	// How the bytes of a frame are read.  (1) transport.handleMessage: every
+	// call on the frame reader itself -- a method call whose receiver is the
+	// function's io.Reader parameter, or io.ReadAtLeast / io.ReadFull / a
+	// bufio wrapper given that parameter -- i.e. every read that does not go
+	// through the decoder.  (2) the decoder: every call that reads from d.r,
+	// with the method it is in and whether it stands in a for loop.
+	var direct, drains []string
+	if fd := p.funcDecl("transport", "handleMessage"); fd != nil && fd.Body != nil {
+		readers := map[string]bool{}
+		for _, f := range fd.Type.Params.List {
+			if p.src(f.Type) == "io.Reader" {
+				for _, n := range f.Names {
+					readers[n.Name] = true
+				}
+			}
+		}
+		ast.Inspect(fd.Body, func(n ast.Node) bool {
+			c, ok := n.(*ast.CallExpr)
+			if !ok {
+				return true
+			}
+			if se, ok := c.Fun.(*ast.SelectorExpr); ok {
+				if id, ok := se.X.(*ast.Ident); ok && readers[id.Name] {
+					direct = append(direct, coqStr(p.src(c)))
+					return true
+				}
+			}
+			if p.src(c.Fun) == "newDecoder" {
+				return true
+			}
+			for _, a := range c.Args {
+				if id, ok := a.(*ast.Ident); ok && readers[id.Name] {
+					switch p.src(c.Fun) {
+					case "io.Copy", "io.ReadAll", "ioutil.ReadAll": // reads to EOF: however the bytes are cut
+						drains = append(drains, coqStr(p.src(c)))
+					default:
+						direct = append(direct, coqStr(p.src(c)))
+					}
+				}
+			}
+			return true
+		})
+	} else {
+		direct = append(direct, coqStr("<transport.handleMessage not found>"))
+	}
+	fmt.Fprintf(&b, "Definition gen_handleMessage_direct_reads : list string :=\n  %s.\n\n", coqList(direct))
+	fmt.Fprintf(&b, "Definition gen_handleMessage_drains : list string :=\n  %s.\n\n", coqList(drains))
+	var decReads []string
+	for _, fd := range p.allFuncs() {
+		if fd.Body == nil || recvName(fd) != "decoder" {
+			continue
+		}
+		var walk func(n ast.Node, inLoop bool)
+		walk = func(n ast.Node, inLoop bool) {
+			ast.Inspect(n, func(m ast.Node) bool {
+				switch x := m.(type) {
+				case *ast.ForStmt:
+					if m != n {
+						walk(x.Body, true)
+						return false
+					}
+				case *ast.CallExpr:
+					txt := p.src(x)
+					if wholeWord(txt, "d.r") && !strings.HasPrefix(txt, "newDecoder") {
+						how := "once"
+						if inLoop {
+							how = "in a loop until EOF or error"
+						}
+						decReads = append(decReads, fmt.Sprintf("(%s, %s, %s)",
+							coqStr("decoder."+fd.Name.Name), coqStr(p.src(x.Fun)), coqStr(how)))
+						return false
+					}
+				}
+				return true
+			})
+		}
+		walk(fd.Body, false)
+	}
+	fmt.Fprintf(&b, "Definition gen_decoder_reads : list (string * string * string) :=\n  %s.\n\n", coqList(decReads))
+
 	tctx := "unknown"
 	if fd := p.funcDecl("", "newTunnel"); fd != nil && fd.Body != nil {
 		ast.Inspect(fd.Body, func(n ast.Node) bool {
@@ -738,6 +818,91 @@ func genServerSkel(repo string) (string, error) {
 		})
 	}
 	fmt.Fprintf(&b, "Definition gen_registry_keys : list (string * string) :=\n  %s.\n\n", coqList(keys))
+	// The registration bracket: in every function that calls upgrade (which
+	// stores the new client in the registry), the top-level statements between
+	// that call -- with the error check that follows it -- and the defer that
+	// calls unmap; each with whether it can leave the function (a return, a
+	// panic, a goto, os.Exit / log.Fatal / runtime.Goexit anywhere inside).
+	var brackets []string
+	for _, fd := range p.allFuncs() {
+		if fd.Body == nil {
+			continue
+		}
+		name := skelFn{recvName(fd), fd.Name.Name}.String()
+		callsUpgrade := func(st ast.Stmt) bool {
+			as, ok := st.(*ast.AssignStmt)
+			if !ok || len(as.Rhs) != 1 {
+				return false
+			}
+			c, ok := as.Rhs[0].(*ast.CallExpr)
+			if !ok {
+				return false
+			}
+			se, ok := c.Fun.(*ast.SelectorExpr)
+			return ok && se.Sel.Name == "upgrade"
+		}
+		mayExit := func(st ast.Stmt) bool {
+			found := false
+			ast.Inspect(st, func(n ast.Node) bool {
+				switch x := n.(type) {
+				case *ast.FuncLit:
+					return false
+				case *ast.ReturnStmt:
+					found = true
+				case *ast.BranchStmt:
+					if x.Tok == token.GOTO {
+						found = true
+					}
+				case *ast.CallExpr:
+					switch p.src(x.Fun) {
+					case "panic", "os.Exit", "runtime.Goexit", "log.Fatal", "log.Fatalf", "log.Fatalln", "log.Panic",
+						"log.Panicf", "log.Panicln":
+						found = true
+					}
+				}
+				return true
+			})
+			return found
+		}
+		firstLine := func(n ast.Node) string {
+			t := p.src(n)
+			if i := strings.Index(t, "\n"); i >= 0 {
+				t = t[:i]
+			}
+			return strings.TrimSpace(t)
+		}
+		list := fd.Body.List
+		for i, st := range list {
+			if !callsUpgrade(st) {
+				continue
+			}
+			j := i + 1
+			// the exit of a failed upgrade (nothing was registered): if err != nil { return err }
+			if j < len(list) {
+				if is, ok := list[j].(*ast.IfStmt); ok && is.Init == nil && is.Else == nil &&
+					p.src(is.Cond) == "err != nil" && len(is.Body.List) == 1 {
+					if _, ok := is.Body.List[0].(*ast.ReturnStmt); ok {
+						j++
+					}
+				}
+			}
+			var between []string
+			closed := false
+			for ; j < len(list); j++ {
+				if ds, ok := list[j].(*ast.DeferStmt); ok && strings.Contains(p.src(ds), ".unmap(") {
+					closed = true
+					break
+				}
+				between = append(between, fmt.Sprintf("(%s, %v)", coqStr(firstLine(list[j])), mayExit(list[j])))
+			}
+			if !closed {
+				between = append(between, fmt.Sprintf("(%s, true)", coqStr("<end of function: no deferred unmap>")))
+			}
+			brackets = append(brackets, fmt.Sprintf("(%s, %s)", coqStr(name), coqList(between)))
+		}
+	}
+	fmt.Fprintf(&b, "Definition gen_register_bracket : list (string * list (string * bool)) :=\n  %s.\n\n",
+		coqList(brackets))
 	fmt.Fprintf(&b, "Definition gen_unmap_callers : list (string * string) :=\n  %s.\n", coqList(unmapCallers))
 	return b.String(), nil
 }
@@ -767,6 +932,26 @@ func genServerSkel(repo string) (string, error) {
 //
 // Nothing is decided here; Sni/DialSkel.v executes the statements
 // symbolically and Sni/ShutdownDialGen.v states what must come out.
+
+// wholeWord: w occurs in s not followed or preceded by an identifier character.
+func wholeWord(s, w string) bool {
+	isID := func(c byte) bool {
+		return c == '_' || (c >= '0' && c <= '9') || (c >= 'a' && c <= 'z') || (c >= 'A' && c <= 'Z')
+	}
+	for i := 0; i+len(w) <= len(s); i++ {
+		if s[i:i+len(w)] != w {
+			continue
+		}
+		if i > 0 && (isID(s[i-1]) || s[i-1] == '.') {
+			continue
+		}
+		if i+len(w) < len(s) && isID(s[i+len(w)]) {
+			continue
+		}
+		return true
+	}
+	return false
+}
 
 type dialWalker struct {
 	p *pkg
